@@ -12,6 +12,7 @@ NoGeom == [t |-> "none", m |-> <<>>]
 EncOk(e) == /\ e.ev = "enc" /\ e.out = "ok" /\ e.out2 = "ok"
             /\ e.bytes = EncBytes(cs.g, cs.bo)
             /\ e.hex = HexDigits(e.bytes)
+            /\ e.keep                                  \* the encodings returned for the previous geometry have not changed
 
 (* decoding agrees with the reference decoder (only evaluated for inputs listed in the trace) *)
 DecRef(e) == LET r == DecBytes(cs.bytes) IN
